@@ -23,6 +23,11 @@ def run_cases(cases, res, stratum):
         try:
             x = A.mk(fx, np, s, n, nf, c['cx'], **({'array_output_type': 'array'} if c.get('aot') else {}))     # (how NumPy FUNCTION results are returned is a setting of x: the operators return fixed-point objects in both settings)
             if c.get('elem'): x = A.mk(fx, np, s, n, nf, [0, c['cx']], shape=(2,), **({'array_output_type': 'array'} if c.get('aot') else {}))[1]     # (an element taken out of an array)
+            if c.get('subclass') and not c.get('elem') and n < 64:
+                # the left operand is an instance of a user SUBCLASS of the fixed-point class (class Word(Fxp): pass): its operators treat another
+                # fixed-point object as what it is, whatever its class
+                class Word(fx.Fxp): pass
+                x = Word(c['cx'], s, n, nf, raw=True)
             if c['y'] is not None:
                 sy, ny, nfy = c['y']; y = A.mk(fx, np, sy, ny, nfy, c['cy'])
                 if c.get('elem') == 2: y = A.mk(fx, np, sy, ny, nfy, [c['cy'], 0], shape=(2,))[0]
@@ -216,7 +221,7 @@ def shard(shard, nshards, rng, tier, extra):
         y, cy = gen_y(rng, n)
         if y is not None:
             ly, hy = S.fmt_bounds(y[0], n); cy = rng.choice([ly, hy, 0, rng.randint(ly, hy)])
-        cases.append({'x': [s, n, rng.choice([0, 1, n // 2, n])], 'cx': cx, 'y': y, 'cy': cy, 'side': rng.choice(['left', 'right']), 'mask_carrier': rng.choice(['py', 'np']), 'aot': rng.random() < 0.3, 'elem': rng.choice([0, 0, 1, 2])})
+        cases.append({'x': [s, n, rng.choice([0, 1, n // 2, n])], 'cx': cx, 'y': y, 'cy': cy, 'side': rng.choice(['left', 'right']), 'mask_carrier': rng.choice(['py', 'np']), 'aot': rng.random() < 0.3, 'elem': rng.choice([0, 0, 1, 2]), 'subclass': rng.random() < 0.3})
     run_cases(cases, res, 'B:wide-words')
     cases = []
     for _ in range((1800 if tier == 'quick' else 15000) // nshards):
